@@ -237,7 +237,12 @@ func runC18(r *vf.Run) {
 	mustMkdir(dir)
 	rng := r.RNG("jobs")
 	var jobs []c18Job
-	totals := []int{2, 17, 64, 999, 1000, 1001, 1003, 2000, 2001, 2500}
+	// 5000 and 9000: values of the rows without tags reach 4096 and 8192 rows; 16000 (thorough also 32000): sixteen and more
+	// goroutines add a thousand rows each while the big writer commits
+	totals := []int{2, 17, 64, 999, 1000, 1001, 1003, 2000, 2001, 2500, 5000, 9000, 16000}
+	if r.Thorough() {
+		totals = append(totals, 32000)
+	}
 	gs := []int{2, 3, 8, 16, 32}
 	k := 0
 	for _, w := range []string{"mem", "big"} {
@@ -247,6 +252,8 @@ func runC18(r *vf.Run) {
 				reps = r.Pick(20, 300)
 			} else if r.Thorough() {
 				reps = 24
+			} else if total >= 5000 {
+				reps = 2
 			} else if total%1000 <= 3 || total%1000 == 999 {
 				reps = 4 // around the big writer's commit boundary the tail of the history matters
 			}
@@ -254,6 +261,9 @@ func runC18(r *vf.Run) {
 				g := gs[rng.Intn(len(gs))]
 				if g > total {
 					g = 2
+				}
+				if total >= 5000 {
+					g = []int{16, 32, 8}[(rep+k)%3] // many goroutines for the long histories
 				}
 				id := fmt.Sprintf("job%03d-%s-n%d-g%d", k, w, total, g)
 				jobs = append(jobs, c18Job{ID: id, Writer: w, Goroutines: g, Total: total, Yield: k%3 != 2, Ticket: rep%2 == 1 || (total > 64 && k%2 == 0), Reuse: k%3 == 1, Out: filepath.Join(dir, id+".updog")})
